@@ -163,8 +163,19 @@ func handMutateStruct(g *model.Gen, sv reflect.Value) []string {
 				if r.IntN(3) == 0 {
 					s = strings.ToUpper(s)
 				}
-				f.SetString(s)
 				what = "hex"
+				if len(s) > 0 && r.IntN(5) == 0 {
+					// an odd number of digits, a blank inside: text a user may well write; whatever the packer
+					// makes of it (it refuses it today), Len goes by the same reading
+					if r.IntN(2) == 0 {
+						s = s[1:]
+						what = "hex-odd-digits"
+					} else {
+						s = s[:len(s)/2] + " " + s[len(s)/2:]
+						what = "hex-with-blank"
+					}
+				}
+				f.SetString(s)
 			case strings.Contains(tag, "base64"):
 				s := base64.StdEncoding.EncodeToString(raw)
 				if r.IntN(2) == 0 {
